@@ -748,8 +748,10 @@ func (h *Harness) Families() []*report {
 	reps := bs.wait()
 	// samples for the evidence file: the first judged-OK family cases
 	n := 0
+	seen := map[string]bool{}
 	for _, c := range f.cases {
-		if c.Verdict == "OK" && n < 6 && len(c.Src()) < 600 {
+		if c.Verdict == "OK" && n < 8 && len(c.Src()) < 900 && !seen[c.Family] && (c.Family != "messages" || c.Msgs == "reverse") {
+			seen[c.Family] = true
 			n++
 			h.ctx.Sample(map[string]interface{}{"family": c.Family, "feature": c.Feature, "files": c.Files, "data": c.Prog.Data, "catalogue": c.Msgs, "go": c.Go.Out, "js": c.JSObs.Out})
 		}
